@@ -24,21 +24,21 @@ use std::path::PathBuf;
 
 /// F2: `write` (atomic, not append) with a path that resolves to the root itself leaves
 /// `<root>.tmp-<uuid>` beside the root. Cases in exactly that region are skipped and counted.
-const EXCLUDE_KNOWN_F2: bool = true;
+const EXCLUDE_KNOWN_F2: bool = false;
 /// F3-escape: `Workspace::create_checkpoint` (manual or automatic) given an escaping path
 /// (absolute outside the root, or any `..` segment): not refused / reads outside / leaves
 /// directories in the store before failing. Manual creates in the region are skipped;
 /// `write` in the region runs through the hook-less runner (the tool's own resolver is still
 /// exercised). Counted.
-const EXCLUDE_KNOWN_F3_ESCAPE: bool = true;
+const EXCLUDE_KNOWN_F3_ESCAPE: bool = false;
 /// F3-cwd: `Workspace::create_checkpoint` given a relative path while the process cwd is not the
 /// root (existence and bytes are read relative to the cwd). Same treatment.
-const EXCLUDE_KNOWN_F3_CWD: bool = true;
+const EXCLUDE_KNOWN_F3_CWD: bool = false;
 /// F20: the automatic checkpoint is taken from the raw `write` argument before the tool validates
 /// it; an absolute path *inside* the root is accepted by create_checkpoint and then refused by the
 /// tool, so a refused request leaves a checkpoint (or empty directories) in the store.
 /// `write` in exactly that region runs through the hook-less runner. Counted.
-const EXCLUDE_KNOWN_F20: bool = true;
+const EXCLUDE_KNOWN_F20: bool = false;
 
 const POSITIONS: &[&str] = &[
     "read.path",
@@ -194,7 +194,10 @@ fn path_strategy() -> BoxedStrategy<(String, String)> {
             }),
         6 => select(ABS).prop_map(|s| (s.to_string(), "abs_fixed".to_string())),
         // k×".." followed by the absolute components of a location (lands on it once k reaches /)
-        3 => (0usize..=9, select(vec!["<OUTERREL>", "<ROOTREL>"]), select(OUT_TARGETS))
+        // (k <= 10 stays inside the case's scratch directory from anywhere in the sandbox; 20 and
+        // 40 are clamped at / and land exactly on the location)
+        3 => (prop_oneof![3 => 0usize..=10, 1 => Just(20usize), 1 => Just(40usize)],
+              select(vec!["<OUTERREL>", "<ROOTREL>"]), select(OUT_TARGETS))
             .prop_map(|(k, anchor, target)| (format!("{}{}/{}", "../".repeat(k), anchor, target), "chain_abs".to_string())),
         4 => select(ROOT_ITSELF).prop_map(|s| (s.to_string(), "root_itself".to_string())),
         6 => select(INSIDE).prop_map(|s| (s.to_string(), "inside".to_string())),
